@@ -7,6 +7,7 @@ import Minicbor.Decoder
 import Minicbor.Skip
 import Minicbor.Wire
 import Minicbor.IntConv
+import Minicbor.Info
 
 namespace Minicbor.Drv
 
@@ -204,6 +205,22 @@ def enciterOp (w : List String) : String :=
         let keptP := if hint == "even" then idx.filter (·.2 % 2 == 0) else idx
         hexOfBytes (Enc.mapIter exact (keptP.flatMap fun p => [Enc.u32 p.1, Enc.u32 p.2]))
       else "bad-op"
+  | _ => "bad-op"
+
+/-- `size head <byte-hex>` / `size tail <hex>` -/
+def sizeOp (w : List String) : String :=
+  match w with
+  | ["head", h] =>
+    match bytesOfHex h with
+    | some [b] => (match Size.headLen b with | .ok n => s!"ok {n}" | .error e => s!"err {e.name}")
+    | _ => "bad-op"
+  | ["tail", h] =>
+    match bytesOfHex h with
+    | some bs =>
+      match Size.tail bs with
+      | .ok .head => "ok head" | .ok (.bytes n) => s!"ok bytes:{n}" | .ok (.items n) => s!"ok items:{n}" | .ok .indef => "ok indef"
+      | .error e => s!"err {e.name}"
+    | none => "bad-op"
   | _ => "bad-op"
 
 /-- `intconv to:<T> <v>` / `intconv from:<T> <v>` (see harness/core/src/intconv.rs). -/
